@@ -8,11 +8,11 @@
    Spec/CalendarSpec.v).  tz_table / month_table / dt_table are REGENERATED from /repo on every run. *)
 From Coq Require Import String.
 From S4.Base Require Import Bytes.
-From S4.Model Require Import Calendar Normalise Regex RegexPlan RegexDt.
+From S4.Model Require Import Calendar Normalise Regex RegexPlan RegexDt RegexNum Year.
 From S4.Gen Require Import DatetimeTables RegexTables.
 From S4.Spec Require Import CalendarSpec TzRef NormaliseSpec.
 From S4.Proofs Require Import CalendarProofs CalendarExtra NormaliseTablesOk NormaliseProofs NormaliseDenotes.
-From S4.Proofs Require Import RegexProofs RegexSim RegexUniv RegexExamples RegexIso.
+From S4.Proofs Require Import RegexProofs RegexSim RegexUniv RegexExamples RegexIso RegexNumProofs RegexNumCover RegexYear.
 Close Scope string_scope.
 Open Scope list_scope.
 Open Scope N_scope.
@@ -371,3 +371,142 @@ Theorem C04_regex_competition_refuted :
     dated_by r' line None 0 = Some 1709251199500000000%Z.
 Proof. exact competition_refuted. Qed.
 Print Assumptions C04_regex_competition_refuted.
+
+(* ================================================================== FROM NUMBERS TO THE INSTANT, every numeric row
+   (Model/RegexNum.v).  A FAMILY gives per pattern item a list of symbolic shapes closed under adjacency
+   ([family_ok]: every shape is accepted by the plan for every byte that can follow), so membership item by
+   item — no lookahead condition — puts the texts in the plan's domain: *)
+Theorem C04_regex_family_sound : forall p fs rf re texts rest,
+  family_ok p fs rf re = true -> in_family fs texts = true -> rest_ok rf re rest = true ->
+  texts_ok p texts rest = true.
+Proof. exact family_sound. Qed.
+Print Assumptions C04_regex_family_sound.
+
+(* text IN FRONT of the timestamp (unanchored rows): a prefix at every offset of which the pattern provably
+   cannot match ([pre_ok]: symbolic engine on windows of one or two bytes) is skipped by the leftmost search;
+   a stated class: prefixes made of the row's [dead_bytes] *)
+Theorem C04_regex_prefix_skipped : forall r pre o pos body F,
+  pre_ok r o pre (hd_opt body) = true -> org_ok pos o -> (length (pre ++ body) < F)%nat ->
+  search_from F r pos (pre ++ body) = search_from F r (pos + N.of_nat (length pre)) body.
+Proof. exact pre_ok_search. Qed.
+Print Assumptions C04_regex_prefix_skipped.
+
+Theorem C04_regex_dead_bytes_prefix : forall r pre nxt,
+  (forall b, In b pre -> In b (dead_bytes r)) -> pre_ok r OAbs pre nxt = true.
+Proof. exact dead_bytes_pre. Qed.
+Print Assumptions C04_regex_dead_bytes_prefix.
+
+(* THE NUMBER-LEVEL THEOREM, generic in the row.  A reading [fread] gives, per field, an ADMITTED standard
+   rendering with its value (tables of Model/RegexNum.v: years 1970..2099 as four / 1970..2069 as two digits,
+   months as two digits, unpadded or any English spelling, days and hours padded, unpadded or space padded,
+   minutes, seconds, 1..9 fraction digits, numeric offsets in the three forms and three signs, zone
+   abbreviations of the frozen reference) or nothing where the row writes nothing.  For every row with
+   [plan_numeric] (decidable on the regenerated AST), every admitted reading that is a valid date and time,
+   every list of item texts whose FIELD items are those renderings and whose other items are ANY texts of
+   the row's family, every admissible rest, every dead prefix (empty when o = OAbs), every tail of the line:
+   the model of bytes_to_regex_to_datetime returns the instant of the NUMBERS. *)
+Theorem C04_regex_numbers : forall o row dr p r pre texts rest tail yo off,
+  In row rx_table -> In dr dt_table ->
+  plan_numeric o row p (r_dtfs dr) = true ->
+  fread_admitted row (r_dtfs dr) p (fam_of p) r = true ->
+  fread_valid r yo = true -> fallback_ok off = true ->
+  plan_caps row p texts = fread_caps r ->
+  seps_in_fam row p texts = true -> rest_ok (rf_of p) true rest = true ->
+  match o with OAbs => pre = [] | ONz => pre <> [] | OUnk => False end ->
+  pre_ok (rx_re row) OAbs pre (hd_opt (concat texts ++ rest)) = true ->
+  slice_of row ((pre ++ concat texts ++ rest) ++ tail) = Some (pre ++ concat texts ++ rest) ->
+  option_map (fun x => fst (fst x))
+             (dated_model month_table tz_table row (r_dtfs dr) ((pre ++ concat texts ++ rest) ++ tail) yo off)
+  = Some (fread_instant r yo off).
+Proof. exact plan_numbers_fields. Qed.
+Print Assumptions C04_regex_numbers.
+
+(* WHICH rows: [row_numeric] (timestamp at the start of the slice) holds of every row except 65-69 (`.+`) and
+   the epoch rows 96-100 (their instant is C04_epoch_shift's); [row_numeric_nz] (behind a non-empty dead
+   prefix) holds of exactly the 80 rows [prefixed_rows] *)
+Theorem C04_regex_numeric_rows :
+  forallb (fun row => match nth_dt' (rx_index row) with
+                      | Some dr => row_numeric row (r_dtfs dr) || existsb (N.eqb (rx_index row)) not_numeric_rows
+                      | None => false end) rx_table = true.
+Proof. exact numeric_ok. Qed.
+Print Assumptions C04_regex_numeric_rows.
+
+Theorem C04_regex_prefixed_rows :
+  forallb (fun row => match nth_dt' (rx_index row) with
+                      | Some dr => Bool.eqb (row_numeric_nz row (r_dtfs dr)) (existsb (N.eqb (rx_index row)) prefixed_rows)
+                      | None => false end) rx_table = true.
+Proof. exact numeric_nz_ok. Qed.
+Print Assumptions C04_regex_prefixed_rows.
+
+(* WHICH values: in every numeric row every year, month, day, hour 0..23, minute, second, at least one
+   fraction length, every ASCII-signed numeric offset and at least 192 zone-name spellings have an admitted
+   rendering — except the unpadded month and hour of rows 59 and 138 *)
+Theorem C04_regex_values_covered :
+  forallb (fun row => match nth_dt' (rx_index row) with
+                      | Some dr => if row_numeric row (r_dtfs dr)
+                                   then list_eqb (value_gaps row (r_dtfs dr)) (expected_gaps (rx_index row))
+                                   else true
+                      | None => false end) rx_table = true.
+Proof. exact value_gaps_ok. Qed.
+Print Assumptions C04_regex_values_covered.
+
+Example C04_regex_numbers_example :
+  exists row dr,
+    nth_rx 73 = Some row /\ nth_dt 73 = Some dr /\
+    row_numeric row (r_dtfs dr) = true /\
+    fread_admitted row (r_dtfs dr) (row_plan row) (row_fam row) ex_fread = true /\
+    fread_valid ex_fread None = true /\ fallback_ok 3600 = true /\
+    plan_caps row (row_plan row) ex_texts = fread_caps ex_fread /\
+    seps_in_family row ex_texts = true /\ rest_ok (row_rf row) true (s2b " message") = true /\
+    fread_instant ex_fread None 3600 = 1709276398123456000%Z.
+Proof. exact row_numbers_example. Qed.
+Print Assumptions C04_regex_numbers_example.
+
+(* ================================================================== the text side of C11: year-less lines
+   when every field reads as a number but the day does not exist in that month of that year, normalise +
+   chrono yield NO instant (the complement of C04_normalise_denotes) ... *)
+Theorem C04_normalise_no_such_date : forall d c yo off y mo dd h mi s fr o,
+  dtfs_ok d = true -> f_epoch d = E_none -> fallback_ok off = true ->
+  rd_year d c yo = Some y -> rd_month d c = Some mo -> rd_day d c = Some dd -> rd_hour d c = Some h ->
+  rd_minute d c = Some mi -> rd_second d c = Some s -> rd_frac d c = Some fr -> rd_off d c off = Some o ->
+  (0 <= y)%Z -> (1 <= mo <= 12)%Z -> (1 <= dd)%Z -> (month_len y mo < dd)%Z ->
+  (h <= 23)%Z -> (mi <= 59)%Z -> (s <= 59)%Z ->
+  model_instant month_table tz_table d c yo off = None.
+Proof. exact normalise_no_such_date. Qed.
+Print Assumptions C04_normalise_no_such_date.
+
+(* ... and end to end: for every numeric row, the BYTES of a line that writes no year + the fill year y give
+   exactly Model/Year.with_year (zone, y, (month, day, time of day)) — the instant of that month/day/time in
+   year y, or nothing when the date does not exist in y (29 Feb of a common year).  This is the `dated`
+   oracle of the year walk (Model/Year.v, C11) as a proved function of the line. *)
+Theorem C04_regex_yearless_line : forall o row dr p r pre texts rest tail y off,
+  In row rx_table -> In dr dt_table ->
+  plan_numeric o row p (r_dtfs dr) = true ->
+  r_year r = None ->
+  fread_admitted row (r_dtfs dr) p (fam_of p) r = true ->
+  time_ok r = true -> (1000 <= y <= 9999)%Z -> fallback_ok off = true ->
+  plan_caps row p texts = fread_caps r ->
+  seps_in_fam row p texts = true -> rest_ok (rf_of p) true rest = true ->
+  match o with OAbs => pre = [] | ONz => pre <> [] | OUnk => False end ->
+  pre_ok (rx_re row) OAbs pre (hd_opt (concat texts ++ rest)) = true ->
+  slice_of row ((pre ++ concat texts ++ rest) ++ tail) = Some (pre ++ concat texts ++ rest) ->
+  option_map (fun x => fst (fst x))
+             (dated_model month_table tz_table row (r_dtfs dr) ((pre ++ concat texts ++ rest) ++ tail) (Some y) off)
+  = with_year (fr_off r off) y (fr_msg r).
+Proof. exact yearless_line. Qed.
+Print Assumptions C04_regex_yearless_line.
+
+(* "Feb 29 23:59:58 host s..." (row 33): fill year 2024 -> 2024-02-29T23:59:58Z, fill year 2023 -> nothing *)
+Example C04_regex_yearless_example :
+  exists dr,
+    nth_dt' 33 = Some dr /\ In yl_row rx_table /\ In dr dt_table /\
+    plan_numeric OAbs yl_row (row_plan yl_row) (r_dtfs dr) = true /\
+    fread_admitted yl_row (r_dtfs dr) (row_plan yl_row) (fam_of (row_plan yl_row)) yl_fread = true /\
+    time_ok yl_fread = true /\
+    plan_caps yl_row (row_plan yl_row) yl_texts = fread_caps yl_fread /\
+    seps_in_fam yl_row (row_plan yl_row) yl_texts = true /\ rest_ok (rf_of (row_plan yl_row)) true (s2b "host s") = true /\
+    slice_of yl_row (([] ++ concat yl_texts ++ s2b "host s") ++ s2b "shd[1]: x") = Some ([] ++ concat yl_texts ++ s2b "host s") /\
+    with_year 0 2024 (fr_msg yl_fread) = Some 1709251198000000000%Z /\
+    with_year 0 2023 (fr_msg yl_fread) = None.
+Proof. exact yearless_example. Qed.
+Print Assumptions C04_regex_yearless_example.
